@@ -307,7 +307,16 @@ impl RunCtx {
             }
         }
         if self.steps > self.spec.step_cap {
-            self.aborted = Some(format!("step_cap: run exceeded {} scheduling points (task {} in `{}`)", self.spec.step_cap, t, self.op_name[t]));
+            // attribute the cap to the task that has spent most scheduling points inside one operation of the code under
+            // test (the task that happens to be running when the cap is hit may be a harness thread that merely waits)
+            let (mut who, mut most) = (t, if self.op_name[t].is_empty() { 0 } else { self.op_steps[t] });
+            for i in 0..MAX_TASKS {
+                if !self.op_name[i].is_empty() && self.op_steps[i] > most {
+                    who = i;
+                    most = self.op_steps[i];
+                }
+            }
+            self.aborted = Some(format!("step_cap: run exceeded {} scheduling points (task {} in `{}`)", self.spec.step_cap, who, self.op_name[who]));
             return true;
         }
         false
